@@ -148,6 +148,34 @@ async def _run(k, fault):
             obs['tasks'][side] = p.tasks_alive(side)
     except AttributeError:
         obs['tasks'] = None
+    # what the applications have seen by now is what is judged: the harness's own close() below fails whatever is
+    # still registered (that is what close() is for) and must not be credited to the clean-up under test
+    from ..apps import DIR_RESPONSE, DIR_CHANNEL_UP
+    snap = {}
+    for s in specs:
+        inter = world.inter[s['iid']]
+        d = {}
+        fut = inter.get('future')
+        d['future_done'] = None if fut is None else fut.done()
+        d['future_failed'] = bool(fut is not None and fut.done() and not fut.cancelled() and fut.exception() is not None)
+        rf = inter.get('resp_future')
+        d['resp_future_done'] = None if rf is None else rf.done()
+        for key in ('subscriber', 'up_subscriber'):
+            sub = inter.get(key)
+            d[key] = None if sub is None else {'log': list(sub.log), 'cancelled': sub.cancelled,
+                                               'subscribed': sub.subscription is not None}
+        d['pubs'] = {}
+        d['gens'] = {}
+        for direction in (DIR_RESPONSE, DIR_CHANNEL_UP):
+            pub = inter.get('publishers', {}).get(direction)
+            if pub is not None:
+                d['pubs'][direction] = {'subscribed': pub.subscriber is not None, 'finished': pub.finished,
+                                        'cancel_calls': pub.cancel_calls}
+            g = inter.get('gen_sources', {}).get(direction)
+            if g is not None:
+                d['gens'][direction] = dict(g)
+        snap[s['iid']] = d
+    obs['snap'] = snap
     for t in tasks:
         t.cancel()
     if extra is not None:
@@ -294,29 +322,31 @@ def judge(p, specs, obs, fault):
         made_before_close = closed_idx[side] is None or call < closed_idx[side]
         model = spec['model']
         # requester side: nothing left hanging, nothing failed twice
+        sn = obs['snap'][iid]
         if made_before_close:
             if model == 'rr':
                 fut = inter.get('future')
                 if fut is not None:
                     st['pending_requests_judged'] += 1
-                    if not fut.done():
+                    if not sn['future_done']:
                         npending += 1
                         bad('request-left-hanging', iid=iid, model=model, endpoint=side)
                     else:
                         log = getattr(fut, 'rv_log', [])
                         if any(was_done and what in ('set_result', 'set_exception') for what, was_done, _ in log):
                             bad('request-failed-twice', iid=iid, model=model, future_log=[list(x) for x in log])
-                        if not fut.cancelled() and fut.exception() is not None:
+                        if sn['future_failed']:
                             npending += 1
             elif model in ('stream', 'channel'):
                 sub = inter.get('subscriber')
-                if sub is not None and sub.subscription is not None:
+                ss = sn['subscriber']
+                if sub is not None and ss['subscribed']:
                     st['pending_requests_judged'] += 1
-                    terms = [x for x in sub.log if x in TERMINALS]
-                    if not terms and not sub.cancelled:
+                    terms = [x for x in ss['log'] if x in TERMINALS]
+                    if not terms and not ss['cancelled']:
                         npending += 1
-                        bad('request-left-hanging', iid=iid, model=model, endpoint=side, log=sub.log[-4:])
-                    if len(terms) > 1:
+                        bad('request-left-hanging', iid=iid, model=model, endpoint=side, log=ss['log'][-4:])
+                    if len([x for x in sub.log if x in TERMINALS]) > 1:
                         bad('request-failed-twice', iid=iid, model=model, log=sub.log[-6:])
                     if 'on_error' in terms:
                         npending += 1
@@ -324,19 +354,18 @@ def judge(p, specs, obs, fault):
         handled = next((e['i'] for e in world.events if e['kind'] == 'handler' and e.get('iid') == iid), None)
         if handled is not None and (closed_idx[other] is None or handled < closed_idx[other]):
             if model == 'rr':
-                fut = inter.get('resp_future')
-                if fut is not None:
+                if sn['resp_future_done'] is not None:
                     st['producers_judged'] += 1
-                    if not fut.done():
+                    if not sn['resp_future_done']:
                         bad('handler-future-not-cancelled', iid=iid, endpoint=other)
             elif model in ('stream', 'channel'):
                 for direction, ep in ((DIR_RESPONSE, other), (DIR_CHANNEL_UP, side)):
-                    pub = inter.get('publishers', {}).get(direction)
-                    if pub is not None and pub.subscriber is not None and not pub.finished:
+                    pub = sn['pubs'].get(direction)
+                    if pub is not None and pub['subscribed'] and not pub['finished']:
                         st['producers_judged'] += 1
-                        if pub.cancel_calls == 0:
+                        if pub['cancel_calls'] == 0:
                             bad('publisher-not-cancelled', iid=iid, endpoint=ep, direction=direction)
-                    g = inter.get('gen_sources', {}).get(direction)
+                    g = sn['gens'].get(direction)
                     if g is not None and g['next_calls'] > 0 and not g['finally'] and g['cancel_cb'] == 0:
                         st['producers_judged'] += 1
                         bad('publisher-not-cancelled', iid=iid, endpoint=ep, direction=direction, source='generator')
